@@ -149,8 +149,9 @@ def conclude(prop, ctx, res, level="model_checking", rule="", clause_prefix=None
     wall = time.time() - ctx.t0
     my_stat = {c: n for c, n in res.stat.items() if c.startswith(prefix)}
     cov = {
-        "states": max(1, sum(m.get("distinct", 0) for m in res.mc)) if res.mc else 0,
-        "transitions": max(1, sum(m.get("generated", 0) for m in res.mc)) if res.mc else 0,
+        # TLC states/transitions: bounded-model runs plus the trace-validation runs (one state per event)
+        "states": max(1, sum(m.get("distinct", 0) for m in res.mc) + int(res.extra.get("trace_validation_states", 0))),
+        "transitions": max(1, sum(m.get("generated", 0) for m in res.mc) + int(res.extra.get("trace_validation_states", 0))),
         "traces_validated_against_impl": len(res.traces),
         "events_validated": res.stat.get("events", 0),
         "evaluations": int(sum(my_stat.values())),
